@@ -166,3 +166,28 @@ Example nested_location_keeps_span :
          60; 47; 109; 97; 114; 107; 62; 32; 106]].
 Proof. exact ex_nested. Qed.
 Print Assumptions nested_location_keeps_span.
+
+(* DocumentMatch.Complete (which turns the postings' field-term locations into the map handed to the
+   highlighter): every location of the map it builds is a location of that field and term of the input
+   — so in-range, Start <= End, rune-boundary offsets of the postings stay so — whether or not the
+   de-duplication pass runs *)
+Theorem complete_locations_are_input : forall l m,
+  complete l = Ok m ->
+  forall f tlm t ls x, In (f, tlm) m -> In (t, ls) tlm -> In x ls -> In (f, t, x) l.
+Proof. exact complete_sound. Qed.
+Print Assumptions complete_locations_are_input.
+
+(* Complete panics (assignment to entry in nil map) exactly when the FIRST location belongs to the
+   field named "" (id 0), which no query can address *)
+Theorem complete_panics_only_on_empty_field_name : forall l,
+  (exists c, complete l = Panic c) <-> (exists t loc r, l = (0, t, loc) :: r).
+Proof. exact complete_panics_iff. Qed.
+Print Assumptions complete_panics_only_on_empty_field_name.
+
+(* OrderTermLocations: the list handed to the fragmenter and the formatter is the map's locations,
+   sorted by Start *)
+Theorem order_is_sorted_permutation : forall m,
+  Sorted.StronglySorted (fun a b => tl_start a <= tl_start b) (order_term_locations m) /\
+  Permutation.Permutation (concat m) (order_term_locations m).
+Proof. exact (fun m => sort_locs_spec (concat m)). Qed.
+Print Assumptions order_is_sorted_permutation.
